@@ -164,6 +164,45 @@ fn main() {
           }
         }
     }
+    // ---- preprocessor-cache entries that want rewriting when they are looked up (a header with __DATE__ / __TIMESTAMP__), against a cache that
+    //      refuses the write-back (read-only): the lookup result must still be used or the request answered by preprocessing — never an error
+    {
+        let cfg = PreprocessorCacheModeConfig { use_preprocessor_cache_mode: true, ..Default::default() };
+        for (hi, htext) in ["#define V 7\n", "#define V 7\nstatic const char *const stamp = __TIMESTAMP__;\n", "#define V 7\nstatic const char *const day = __DATE__;\n"].iter().enumerate() {
+          for second_mode in [CacheMode::ReadWrite, CacheMode::ReadOnly] {
+            ppcases += 1;
+            let cdir = tmp.path().join(format!("ppwb{}_{:?}", hi, second_mode));
+            let hname = format!("wb{}_{:?}.h", hi, second_mode); let cname = format!("wb{}_{:?}.c", hi, second_mode);
+            std::fs::write(cwd.join(&hname), htext).unwrap();
+            std::fs::write(cwd.join(&cname), format!("#include \"{}\"\nint f(void){{return V;}}\n", hname)).unwrap();
+            let args: Vec<OsString> = vec!["-c".into(), cname.clone().into(), "-o".into(), format!("{}.o", cname).into()];
+            let run1 = |disk: &Arc<dyn Storage>| {
+                let _ = std::fs::remove_file(cwd.join(format!("{}.o", cname)));
+                let res = rt.block_on(async {
+                    let (compiler, _) = get_compiler_info(creator.clone(), &wrapper, &cwd, &args, &env, &pool, None).await.unwrap();
+                    let hasher = match compiler.parse_arguments(&args, &cwd, &env) { CompilerArguments::Ok(h) => h, _ => panic!("parse") };
+                    match hasher.get_cached_or_compile(&service, None, creator.clone(), disk.clone(), args.clone(), cwd.clone(), env.clone(), CacheControl::Default, pool.clone()).await {
+                        Ok((cr, out)) => { let name = match cr { CompileResult::Error => "Error".to_string(), CompileResult::CacheHit(_) => "CacheHit".to_string(),
+                                CompileResult::CacheMiss(_, _, _, fut) => { let _ = fut.await; "CacheMiss".to_string() } CompileResult::NotCached(..) => "NotCached".to_string(),
+                                CompileResult::NotCacheable(..) => "NotCacheable".to_string(), CompileResult::CompileFailed(..) => "CompileFailed".to_string() };
+                            format!("{} ok={}", name, out.status.success()) }
+                        Err(e) => format!("Err({:#})", e).replace("\n", " "),
+                    } });
+                (res, cwd.join(format!("{}.o", cname)).exists())
+            };
+            let rw: Arc<dyn Storage> = Arc::new(DiskCache::new(&cdir, 10_000_000, &pool, cfg, CacheMode::ReadWrite));
+            let (first, _) = run1(&rw); drop(rw);
+            let again: Arc<dyn Storage> = Arc::new(DiskCache::new(&cdir, 10_000_000, &pool, cfg, second_mode));
+            let (second, obj) = run1(&again); let (third, obj3) = run1(&again);
+            let line = format!("ppwriteback header={} second_cache={:?} | first={} second={} obj={} third={} obj3={}", ["plain", "timestamp", "date"][hi], second_mode, first, second, obj, third, obj3);
+            writeln!(tr, "# {}", line).unwrap();
+            distinct.insert(format!("ppwb {} {:?} {}", hi, second_mode, second));
+            for (which, r, o) in [("second", &second, obj), ("third", &third, obj3)] {
+                if r.starts_with("Err(") || !o { fails.push(fail_json("fatal_on_pp_entry_fault", &format!("preprocessor-cache entry that wants rewriting ({} header) on a {:?} cache: {} request: {}", ["plain", "timestamp", "date"][hi], second_mode, which, &r[..r.len().min(160)]), &[line.clone()], "")); }
+            }
+          }
+        }
+    }
     std::fs::write(&a[2], format!("{{\"l1_cases\":{},\"pp_fault_cases\":{},\"distinct_nontrivial\":{},\"monitor_failures\":[{}],\"samples\":[{}]}}", n, ppcases, distinct.len(), fails.join(","), samples.iter().map(|s| jstr(s)).collect::<Vec<_>>().join(","))).unwrap();
 }
 
